@@ -259,7 +259,7 @@ Section ErrLoc.
       apply dbind_err in Hr. destruct Hr as [Hr|(nm & _ & Hr)]; [eapply gen_name_EQ; eauto|].
       assert (Hva' : va_M (Some (Variable_ m nm []))) by (simpl; auto).
       apply dbind_err in Hr. destruct Hr as [Hr|([s1 d1] & _ & Hr)]; [eapply IHs; eauto|].
-      destruct (negb (is_nil d1)); discriminate Hr.
+      destruct (existsb (decl_uses_counter nm) d1); discriminate Hr.
     - destruct Hms as (Hm & _). destruct (contains_anon v); [(eapply fail_EQ; [|exact Hr]; eauto) | discriminate Hr].
     - destruct Hms as (Hm & Hl). apply allP_Forall in Hl.
       apply dbind_err in Hr. destruct Hr as [Hr|([s1 d1] & _ & Hr)]; [|discriminate Hr].
